@@ -206,10 +206,20 @@ int main(int argc, char** argv) {
     if (getenv("C19_N")) N = atoi(getenv("C19_N"));
     // jobs: [0, 2*n3) three-byte segments (tracker, then flow); [2*n3, 2*n3 + 2*n1) one-byte segments
     int n3q = 6 + 5 * 3 + 4, n3t = 6 + 7 * 3 + 4, n1q = 6 + 5 + 4, n1t = 6 + 7 + 4;
-    int nq = 2 * n3q + 2 * n1q, nt = 2 * n3t + 2 * n1t;
+    // last 4 jobs: the WIDE configuration - one-byte segments, N = 8 (thorough 9) so that four disjoint out-of-order blocks exist at once and
+    // an ACK can carry a full SACK option of 4 blocks (with N <= 7 at most three blocks ever exist), two ISNs (plain, wrap inside) x tracker/flow
+    int nq = 2 * n3q + 2 * n1q + 4, nt = 2 * n3t + 2 * n1t + 4;
     return run_main(argc, argv, nq, nt,
         [=](int job) {
             int n3 = A.thorough() ? n3t : n3q;
+            int nbase = A.thorough() ? nt - 4 : nq - 4;
+            if (job >= nbase) {
+                int w = job - nbase;
+                SEG = 1; N = A.thorough() ? 9 : 8; MAXBLK = 4;
+                run_cfg(w >= 2, (w & 1) ? 0u - 4u : 12345u);
+                R.maxv("wide_configuration_N", N);
+                return;
+            }
             if (job >= 2 * n3) { SEG = 1; job -= 2 * n3; } else SEG = 3;
             auto v = isns();
             bool flow = job >= (int)v.size();
@@ -221,6 +231,7 @@ int main(int argc, char** argv) {
             N = atoi(kv["N"].c_str());
             if (kv.count("seg")) SEG = atoi(kv["seg"].c_str());
             if (N > 5) MAXBLK = 4;
+            if (N > 7 && !kv.count("seg")) SEG = 1;
             std::string err, ops = kv["ops"];
             run_cfg(kv["level"] == "flow", (uint32_t)strtoul(kv["isn"].c_str(), 0, 10), &ops, &err);
             if (!err.empty()) { printf("violation reproduced: %s\n", err.c_str()); return 1; }
